@@ -182,6 +182,36 @@ Theorem ble_session_attribution : forall sealW sealR openW openR,
       = Ok (map (fun r => ans_outcome (resp (breq_core r))) reqs, (e', d'), (e', d')).
 Proof. exact ble_session_attribution_l. Qed.
 
+(* whole sessions over ANY GATT link (latency = arbitrary function of the call's index on the
+   connection and of its payload; every write and every read of the history is a call): the
+   closed loop over the link IS the closed loop of ble_session_attribution ... *)
+Theorem ble_session_link_invisible : forall lat sealW openR sealR openW resp reqs k cst ast,
+    ble_loop_link lat sealW openR sealR openW resp k cst ast reqs
+    = ble_loop sealW openR sealR openW resp cst ast reqs.
+Proof. exact ble_loop_link_eq. Qed.
+
+(* ... hence attribution over histories holds for every link: request i gets the accessory's
+   answer to request i, counters of both ends equal afterwards *)
+Theorem ble_session_attribution_any_link : forall lat sealW sealR openW openR,
+    (forall n m, openW n (sealW n m) = Some m) -> (forall n m, openR n (sealR n m) = Some m) ->
+    forall resp : responder,
+    (forall (op t i : N) (b : bytes), (N.of_nat (length b) < 65536)%N -> ans_ok (resp (op, t, i, b))) ->
+    forall reqs k e d, Forall breq_ok reqs ->
+    exists e' d',
+      ble_loop_link lat sealW openR sealR openW resp k (e, d) (e, d) reqs
+      = Ok (map (fun r => ans_outcome (resp (breq_core r))) reqs, (e', d'), (e', d')).
+Proof. exact ble_session_link_l. Qed.
+
+(* sequential issue is the identity on the fragment train for every latency function; a
+   concurrently issued train (issue_par_f) swaps its first two payloads as soon as the second
+   call is faster than the first *)
+Theorem link_seq_identity : forall lat ws t k, link_seq lat t k ws = ws.
+Proof. exact link_seq_id. Qed.
+
+Theorem link_concurrent_train_overtakes : forall lat t k w1 w2, lat (S k) w2 < lat k w1 ->
+    arrival (issue_par_f lat t k [w1; w2]) = [w2; w1].
+Proof. exact link_par_overtake. Qed.
+
 (* a complete, well-formed response that answers ANOTHER transaction (an earlier request's
    answer, a reused or corrupted tid) is never attributed to the pending request *)
 Theorem ble_stale_response_rejected : forall (sealR : N -> bytes -> bytes) (openR : N -> bytes -> option bytes),
@@ -353,6 +383,16 @@ Example c17_link_nonvacuous :
        = Some (2%N, 77%N, 300%N, ex_body).
 Proof. cbv zeta. eexists. split; [vm_compute; reflexivity|]. repeat split; vm_compute; reflexivity. Qed.
 
+(* the session Example over a link whose latency depends on call index and payload length:
+   same outcomes and counters as c17_session_nonvacuous *)
+Example c17_session_link_nonvacuous :
+  let reqs : list breq := [(20, 3%N, 17%N, 10%N, []); (81, 2%N, 200%N, 52%N, map N.of_nat (seq 0 30));
+                           (9, 1%N, 5%N, 300%N, map N.of_nat (seq 0 300))] in
+  let lat : latency := fun k w => (7 * k + 3 * length w) mod 11 in
+  ble_loop_link lat toy_seal toy_open toy_seal toy_open demo_responder 4 (7%N, 40%N) (7%N, 40%N) reqs
+  = Ok (map (fun r => ans_outcome (demo_responder (breq_core r))) reqs, (53%N, 99%N), (53%N, 99%N)).
+Proof. cbv zeta. vm_compute. reflexivity. Qed.
+
 Print Assumptions ble_frag_size.
 Print Assumptions ble_reassemble.
 Print Assumptions ble_reassemble_encrypted.
@@ -369,6 +409,10 @@ Print Assumptions ble_reject_bad_tid.
 Print Assumptions ble_reject_missing_flag.
 Print Assumptions ble_reject_bad_seal.
 Print Assumptions ble_session_attribution.
+Print Assumptions ble_session_link_invisible.
+Print Assumptions ble_session_attribution_any_link.
+Print Assumptions link_seq_identity.
+Print Assumptions link_concurrent_train_overtakes.
 Print Assumptions ble_stale_response_rejected.
 Print Assumptions ble_undefined_status_rejected.
 Print Assumptions coap_request_tids.
